@@ -483,7 +483,7 @@ def run(env):
                        exhaustive=bool(pairs), extra_distinct=pairs,
                        extra={"explanation": "exhaustive refers to the comparator matrix: all %d ordered pairs of the universe and all triples" % pairs},
                        assumptions=["object-vs-object order is taken from the observed relation after it was checked to be a strict total order compatible with =",
-                                    "-0, integers with |n| >= 2^53 and objects differing only in member order are outside the property's domain"])
+                                    "integers with |n| >= 2^53 (other than the five at the ends of the 64-bit ranges, each a double of its own) and objects differing only in member order are outside the property's domain"])
 
 
 def replay(env, unit):
